@@ -165,6 +165,15 @@ PROPS["C08"] = {
     "assumptions": ["reads without N for the proved part (the N fallback re-aligns with the adapter's own match_to)"],
 }
 
+PROPS["C06"] = {
+    "level": "other",
+    "text": "Scope-restricted.  Proved: OrderedChunkWriter.write keeps the invariant 'the file holds exactly the chunks 0.._current_index-1 "
+            "in index order, everything else is waiting' for every arrival order (so the file content is a function of the set of "
+            "(index, data) messages only).  Bounded: -j N against -j 1 (bytes and JSON report) on a command-line grid.",
+    "note": "NOT explored: OS schedules, IPC primitives, deadlock/liveness (assumed reliable FIFO connections and exactly-once queue).",
+    "assumptions": ["no interleaving of processes is enumerated; the claim is about arrival-order independence of the main process"],
+}
+
 _PENDING = "check not built yet in this revision (see DESIGN.md section 7 for the build order)"
 NOT_APPLICABLE = {
     "C12": "quantifies over fault sequences, crash points and schedules and contains a liveness clause; malformed-input detection "
